@@ -822,6 +822,9 @@ func rpcGetLeavesByRange(ctx context.Context, li *logInfo, req *trillian.GetLeav
 	if err != nil {
 		return nil, li.toHTTPStatus(err), fmt.Errorf("backend GetLeavesByRange request failed: %s", err)
 	}
+	if rsp == nil {
+		return nil, http.StatusInternalServerError, errors.New("missing GetLeavesByRange response")
+	}
 	for _, leaf := range rsp.Leaves {
 		if err := li.issuanceChainService.FixLogLeaf(ctx, leaf); err != nil {
 			return nil, http.StatusInternalServerError, fmt.Errorf("failed to fix log leaf: %v", rsp)
